@@ -15,12 +15,13 @@ EXPLANATION = (
     "Packet::write into `self.buffer[..]`, and that field has type [u8; MAX_PACKETSIZE] with MAX_PACKETSIZE evaluated to 1400.  "
     "R2 (budgets over constants extracted from the code): B3 HEADER_SIZE + (MAX_PAYLOAD + vital chunk header) [+ TOKEN_SIZE] "
     "<= MAX_PACKETSIZE so that the `too short buffer` unreachable! cannot fire; B4 the same quantity + token fits the 2048-byte "
-    "ArrayVec buffers; B6 connless header + MAX_PAYLOAD <= MAX_PACKETSIZE; B7 (chunk count): can_fit_chunk requires "
+    "ArrayVec buffers; B6 connless header + the largest payload write_connless_packet's own guard accepts <= MAX_PACKETSIZE; B7 (chunk count): can_fit_chunk requires "
     "num_chunks < u8::MAX and every PacketContents::write_chunk on `packet` is dominated by can_fit_chunk() == true or by a "
     "clear/flush of that packet on the same path.  R4 (count/content pairing): num_chunks is written only together with data "
     "(write_chunk, clear/new) and flush passes packet.num_chunks with &packet.data of the same packet.  R5 (canonical output): "
     "no warning-tested header bit can be set by pack -- decided bit-exactly by C05 R1 (`warnings only on non-canonical bits`), "
-    "re-evaluated here.  Not decided: chunk bytes bit-identical after a reader pass (value level)."
+    "re-evaluated here.  R6 (build then reset): OnlineState::flush modifies request_resend / packet / packet_nonvital only after "
+    "PacketBuilder::send was called with them.  Not decided: chunk bytes bit-identical after a reader pass (value level)."
 )
 ASSUMPTIONS = [
     "std / arrayvec functions outside the precondition table do not panic; Callback/Warn implementations do not panic",
@@ -39,6 +40,7 @@ def run(ctx, rep):
         budgets(prog, rep, ver, mod, pmod)
         chunk_count(prog, rep, ver, mod)
         pairing(prog, rep, ver, mod)
+        build_then_reset(prog, rep, ver, mod)
     canonical(ctx, rep)
 
 
@@ -120,10 +122,46 @@ def budgets(prog, rep, ver, mod, pmod):
         cap = int(m.group(1)) if m else 0
         rep.ob(rule, "%s | B4 %s.%s capacity" % (ver, adt_name.rsplit("::", 1)[-1], field), area + TOK <= cap,
                "chunk area %d (+ token %d) fits the %d-byte ArrayVec" % (area, TOK, cap), "%s:%s" % (a.get("file"), a.get("ln")))
-    if ver == "0.6":
-        pad = c("PADDING_SIZE_CONNLESS")
-        rep.ob(rule, "0.6 | B6 connless header + MAX_PAYLOAD <= MAX_PACKETSIZE", HDR + pad + MAXP <= MAXPKT,
-               "%d + %d + %d = %d <= %d" % (HDR, pad, MAXP, HDR + pad + MAXP, MAXPKT), None)
+    # B6: the connectionless writer -- header bytes written first + the largest payload its own TooLongData guard lets
+    # through must fit the 1400-byte datagram buffer (otherwise the `too short buffer` unreachable! of the builder fires)
+    wc = prog.bodies.get(pmod + "::write_connless_packet::inner")
+    if wc is None:
+        raise AnchorLost("%s::write_connless_packet::inner not found" % pmod)
+    wir = IR(wc)
+    wrs = Reasoner(wir, prog)
+    ws = [(bi, t) for bi, t in wc.calls() if (t.get("callee") or "") == "libtw2_buffer::BufferRef::write"]
+    ws.sort(key=lambda x: len(wc.dom_chain(x[0])))
+    rep.floor(rule, len(ws), 2, "%s: writes of write_connless_packet (header, payload)" % ver)
+    if len(ws) >= 2:
+        hdr_len = 0
+        okh = True
+        for bi, t in ws[:-1]:
+            ll = wrs.len_lin(wir.term_operand(bi, t["args"][1]))
+            if ll is not None and ll.is_const():
+                hdr_len += ll.k
+            else:
+                okh = False
+        if not okh:
+            # packed header types: their size from the ADT facts
+            hdr_len = None
+            for bi, t in ws[:-1]:
+                for x in walk(wir.term_operand(bi, t["args"][1])):
+                    if isinstance(x, tuple) and x and x[0] == "call" and x[1].endswith("::pack"):
+                        rt = wir.type_of(x)
+                        a = prog.adts.get(rt or "")
+                        if a is not None:
+                            hdr_len = a.get("size")
+        bi, t = ws[-1]
+        facts, nes = wrs.facts_at(bi)
+        ll = wrs.len_lin(wir.term_operand(bi, t["args"][1]))
+        lmax = None
+        for cand in sorted(set([MAXP, MAXPKT - HDR, MAXPKT, 1023, 2048, 4095])):
+            if ll is not None and wrs.prove(ll.sub(Lin.const(cand)), facts):
+                lmax = cand
+                break
+        okb = hdr_len is not None and lmax is not None and hdr_len + lmax <= MAXPKT
+        rep.ob(rule, "%s | B6 connless header + largest accepted payload <= MAX_PACKETSIZE" % ver, okb,
+               "header %s + payload limit %s (from the TooLongData guard of write_connless_packet) %s %d" % (hdr_len, lmax, "<=" if okb else "exceeds", MAXPKT), wc.loc())
 
 
 def chunk_count(prog, rep, ver, mod):
@@ -153,7 +191,18 @@ def chunk_count(prog, rep, ver, mod):
             # send: `if !can_fit { flush }` then queue() writes: queue's write is reached after can_fit true or flush
             q = [bi for bi, t in b.calls() if (t.get("callee") or "") == mod + "::Connection::queue"]
             fl = [bi for bi, t in b.calls() if (t.get("callee") or "").endswith("OnlineState::flush")]
-            cfc = [bi for bi, t in b.calls() if (t.get("callee") or "").endswith("PacketContents::can_fit_chunk")]
+            # the admission test must be made on the packet that flush sends (the field whose num_chunks/data
+            # OnlineState::flush hands to the builder), not on a sibling
+            sent = _sent_field(prog, mod)
+            cfc = []
+            for bi, t in b.calls():
+                if (t.get("callee") or "").endswith("PacketContents::can_fit_chunk"):
+                    recv = show(strip_sites(bir.term_operand(bi, t["args"][0])))
+                    if recv.endswith("." + sent):
+                        cfc.append(bi)
+                    else:
+                        rep.ob(rule, "%s | send: admission test on the sent packet" % ver, False,
+                               "can_fit_chunk is asked of `%s`, but flush sends `.%s`: chunks queued there are not counted" % (recv, sent), b.loc(t.get("ln")))
             for qb in q:
                 n += 1
                 # removing flush blocks and the can_fit==true edge makes queue unreachable from entry
@@ -187,6 +236,26 @@ def chunk_count(prog, rep, ver, mod):
                        "can_fit = can_fit_chunk(..) [|| packet.num_chunks == 0]" if defs_ok else
                        "can_fit in resend is computed from something else", b.loc())
     rep.floor(rule, n, 2, "%s: write sites checked" % ver)
+
+
+def _sent_field(prog, mod):
+    """name of the OnlineState field whose contents flush passes to PacketBuilder::send"""
+    b = prog.one(mod + "::OnlineState::flush")
+    ir = IR(b)
+    for bi, t in b.calls():
+        if (t.get("callee") or "") == mod + "::PacketBuilder::send":
+            e = ir.call_expr(bi, t)
+            names = set()
+            for x in walk(e[2][2]):
+                if isinstance(x, tuple) and x and x[0] == "field" and x[2] == "num_chunks":
+                    y = x[1]
+                    while isinstance(y, tuple) and y and y[0] in ("deref", "ref"):
+                        y = y[1] if y[0] == "deref" else y[2]
+                    if y[0] == "field":
+                        names.add(y[2])
+            if len(names) == 1:
+                return names.pop()
+    raise AnchorLost("%s OnlineState::flush: cannot tell which packet is sent" % mod)
 
 
 def _switch_after(body, bb):
@@ -316,6 +385,28 @@ def pairing(prog, rep, ver, mod):
     clears = [show(fir.term_operand(bi, t["args"][0])) for bi, t in fl.calls() if (t.get("callee") or "").endswith("PacketContents::clear")]
     okc = any("packet_nonvital" in c for c in clears) and any(c.endswith(".packet") for c in clears)
     rep.ob(rule, "%s | flush clears packet and packet_nonvital" % ver, okc, "cleared after sending: %s" % clears, fl.loc())
+
+
+def build_then_reset(prog, rep, ver, mod):
+    """R6: OnlineState::flush resets its state (request_resend, packet, packet_nonvital) only after the datagram has been
+    built from it: every write rooted in *self is dominated by the PacketBuilder::send call"""
+    rule = "R6-build-then-reset"
+    b = prog.one(mod + "::OnlineState::flush")
+    ir = IR(b)
+    sends = [bi for bi, t in b.calls() if (t.get("callee") or "") == mod + "::PacketBuilder::send"]
+    if len(sends) != 1:
+        raise AnchorLost("%s OnlineState::flush: expected one PacketBuilder::send, found %d" % (ver, len(sends)))
+    effs = [e for e in effects(b, ir, write_roots=[("a", 0)]) if e.kind in ("write", "mutcall")]
+    rep.floor(rule, len(effs), 3, "%s: state resets in OnlineState::flush" % ver)
+    n = {}
+    for e in effs:
+        ok = e.bb != sends[0] and b.dominates(sends[0], e.bb)
+        k = "%s | %s %s" % (ver, e.kind, e.desc.split("::")[-1] if e.kind == "mutcall" else e.desc)
+        n[k] = n.get(k, 0) + 1
+        rep.ob(rule, "%s | %d" % (k, n[k] - 1), ok,
+               "the reset happens after the packet was built from the state" if ok else
+               "`%s` is modified before (or without) the packet being built from it: the datagram no longer reflects what was queued" % e.desc,
+               b.loc(e.ln))
 
 
 def canonical(ctx, rep):
